@@ -342,3 +342,10 @@ Example c07_exodus_repaired_nonvacuous :
   exists bs, c07_exo_connect c07_repaired 5 [[0; 1; 2; FILL; FILL]; [2; 3; 4; 5; 6]; [2; 1; 7; FILL; FILL]; [1; 0; 8; 9; FILL]] = Some bs
     /\ map corners (c07_read_exodus_conn c07_repaired bs) = [[0; 1; 2]; [2; 1; 7]; [1; 0; 8; 9]; [2; 3; 4; 5; 6]].
 Proof. eexists. split; vm_compute; reflexivity. Qed.
+
+(* instantiated at the code as it is *)
+Corollary c07_exodus_roundtrip_faithful nmax t :
+  std_table nmax t -> Forall (fun r => c07_exo_elem_ok (length (corners r)) = true) t ->
+  exists bs, c07_exo_connect c07_faithful nmax t = Some bs /\
+    Permutation (map corners (c07_read_exodus_conn c07_faithful bs)) (map corners t).
+Proof. apply c07_exodus_repaired_roundtrip; reflexivity. Qed.
